@@ -340,6 +340,32 @@ fn scale_laws(t: &ScaleTriple) -> Vec<LawCase> {
     v.into_iter().map(|(law, lhs, rhs, rel)| LawCase { law: law.to_string(), lhs, rhs, relation: rel.to_string(), nontrivial: true, classes: vec!["offset-scale-operands".to_string()] }).collect()
 }
 
+/// A plain number next to quantities whose written unit has no net dimension (`ft/m`, `in/ft`, `min/s`): the
+/// plain number adopts the unit it meets (C02), the ratio quantities convert among each other — the additive and
+/// multiplicative laws (not distributivity, which the adoption rule rules out) hold for such triples too.
+fn ratio_laws(x: &[String; 3], units: &[&str; 2]) -> Vec<LawCase> {
+    let a = format!("({})", x[0]);
+    let b = format!("({} {})", x[1], units[0]);
+    let c = format!("({} {})", x[2], units[1]);
+    let v: Vec<(&str, String, String, &str)> = vec![
+        ("ratio:a+b=b+a", format!("{} + {}", a, b), format!("{} + {}", b, a), "equal"),
+        ("ratio:b+c=c+b", format!("{} + {}", b, c), format!("{} + {}", c, b), "equal"),
+        ("ratio:(a+b)+c=a+(b+c)", format!("({} + {}) + {}", a, b, c), format!("{} + ({} + {})", a, b, c), "equal"),
+        // not `(b+a)+c = b+(a+c)`: there the plain number meets another unit first on each side and the adoption
+        // rule makes the two sides different quantities by construction
+        ("ratio:a*b=b*a", format!("{} * {}", a, b), format!("{} * {}", b, a), "equal"),
+        ("ratio:(a*b)*c=a*(b*c)", format!("({} * {}) * {}", a, b, c), format!("{} * ({} * {})", a, b, c), "equal"),
+        ("ratio:b-b=0", format!("{} - {}", b, b), b.clone(), "zero-with-dim-of-rhs"),
+    ];
+    v.into_iter().map(|(law, lhs, rhs, rel)| LawCase { law: law.to_string(), lhs, rhs, relation: rel.to_string(), nontrivial: true, classes: vec!["plain-number-and-ratio-units".to_string()] }).collect()
+}
+
+fn ratio_triple() -> impl Strategy<Value = ([String; 3], [&'static str; 2])> {
+    let u = || prop_oneof![Just("ft/m"), Just("in/ft"), Just("km/mi"), Just("min/s"), Just("g/lb"), Just("J/btu"), Just("l/gal"), Just("yd/ft"), Just("hr/s"), Just("N*s^2/kg*m")];
+    let l = || gen::small_lit().prop_map(|l| l.text).prop_filter("no percent", |t| !t.ends_with('%'));
+    (l(), l(), l(), u(), u()).prop_map(|(a, b, c, u1, u2)| ([a, b, c], [u1, u2]))
+}
+
 fn check_scale_triple(t: &ScaleTriple) -> CaseReport {
     let ls = scale_laws(t);
     let mut first: Option<CaseReport> = None;
@@ -358,7 +384,7 @@ fn check_scale_triple(t: &ScaleTriple) -> CaseReport {
 }
 
 pub fn run_check(ctx: &Ctx) {
-    ctx.set_rule("triples (a, b, c) plus a free operand d drawn from literals over the whole proportional unit vocabulary and from every typable fact phrase of the shipped database (decoded by the harness), b and c spelled for a's dimension; seven law instances per triple (a+b=b+a, a*d=d*a, both associativities, distributivity, a-a=0 with a's dimension, a/a=1), both sides evaluated by the tool and compared after SI normalisation through the Compound mirror; the same laws over quantities on the offset scales (°C, °F, prefixed): a, b, c on one scale spelling, free operands d, e on any scale or any other unit (also compounds holding a scale: J/°C, m*°C, °F^2): commutativity and associativity of products, a-a, a/a, (d*a)/a=d, both distributivities, a^2=a*a and a^3=a*a*a, degrees compared as intervals; non-trivial = operands with different unit spellings or at least one fact or an offset scale; distinct by the commutativity query pair");
+    ctx.set_rule("triples (a, b, c) plus a free operand d drawn from literals over the whole proportional unit vocabulary and from every typable fact phrase of the shipped database (decoded by the harness), b and c spelled for a's dimension; seven law instances per triple (a+b=b+a, a*d=d*a, both associativities, distributivity, a-a=0 with a's dimension, a/a=1), both sides evaluated by the tool and compared after SI normalisation through the Compound mirror; the same laws over quantities on the offset scales (°C, °F, prefixed): a, b, c on one scale spelling, free operands d, e on any scale or any other unit (also compounds holding a scale: J/°C, m*°C, °F^2): commutativity and associativity of products, a-a, a/a, (d*a)/a=d, both distributivities, a^2=a*a and a^3=a*a*a, degrees compared as intervals; triples of a plain number and two quantities whose written unit has no net dimension (ft/m, in/ft, min/s …): the additive and multiplicative laws without distributivity; non-trivial = operands with different unit spellings or at least one fact or an offset scale; distinct by the commutativity query pair");
     ctx.assume("both sides of a law must be values; fact dimensions are read from the decoded data files; over the offset scales (°C, °F) the additive laws and distributivity are instantiated with one scale spelling per instance, because a sum across two scales converts its right operand by the affine formula (C09) and is not commutative by construction");
     let corpus: Vec<(String, LawCase)> = load_corpus("C13");
     let cases: Vec<LawCase> = corpus.into_iter().map(|c| c.1).collect();
@@ -367,6 +393,28 @@ pub fn run_check(ctx: &Ctx) {
     let n = ctx.tier.pick(60_000u64, 1_000_000);
     ctx.run_gen("triples", triple, n, check_triple, |t| json!(laws(t)));
     ctx.run_gen("offset-scale-triples", scale_triple, n / 6, check_scale_triple, |t| json!(scale_laws(t)));
+    ctx.run_gen(
+        "plain-number-and-ratio-units",
+        ratio_triple,
+        n / 12,
+        |(x, u)| {
+            let ls = ratio_laws(x, u);
+            let mut first: Option<CaseReport> = None;
+            for l in &ls {
+                let rep = check_law(l);
+                if let crate::runner::Verdict::Fail { .. } = rep.verdict {
+                    return rep;
+                }
+                if first.is_none() {
+                    first = Some(rep);
+                }
+            }
+            let mut rep = first.unwrap();
+            rep.classes.retain(|c| !c.starts_with("law:"));
+            rep
+        },
+        |(x, u)| json!(ratio_laws(x, u)),
+    );
     if ctx.tier == crate::runner::Tier::Thorough {
         // every fact once as `a`, with a literal partner
         let p = pool();
